@@ -156,6 +156,88 @@ theorem greedy_congr (minW : Rat) (js : List Job) {f f' : List Nat} (h : ∀ x, 
     rw [e1, e2, ih h]
     rw [ih (f := d.l :: d.r :: f) (f' := d.l :: d.r :: f') (by intro x; simp [h])]
 
+/-- at or above the threshold -/
+def above (minW : Rat) (j : Job) : Bool := !decide (j.score < minW)
+
+/-- the loop never looks past the first result below the threshold -/
+theorem greedy_takeWhile (minW : Rat) (js : List Job) (f : List Nat) :
+    greedy minW js f = greedy minW (js.takeWhile (above minW)) f := by
+  induction js generalizing f with
+  | nil => rfl
+  | cons d ds ih =>
+    by_cases h : d.score < minW
+    · simp [greedy, List.takeWhile, above, h]
+    · simp only [greedy, List.takeWhile, above, h, decide_false, Bool.not_false, if_false]
+      split
+      · exact ih f
+      · rw [ih]
+
+theorem takeWhile_eq_filter_of_sorted (minW : Rat) (l : List Job) (h : l.Pairwise Desc) :
+    l.takeWhile (above minW) = l.filter (above minW) := by
+  induction l with
+  | nil => rfl
+  | cons d ds ih =>
+    rw [List.pairwise_cons] at h
+    by_cases hd : above minW d = true
+    · simp only [List.takeWhile, List.filter, hd]
+      rw [ih h.2]
+    · simp only [List.takeWhile, List.filter, hd]
+      symm
+      rw [List.filter_eq_nil_iff]
+      intro x hx
+      have hle : x.score ≤ d.score := h.1 x hx
+      have hdlt : d.score < minW := by
+        simp only [above, Bool.not_eq_true', decide_eq_false_iff_not, Decidable.not_not] at hd
+        simpa using hd
+      simp only [above, Bool.not_eq_true', decide_eq_false_iff_not, Decidable.not_not]
+      grind
+
+theorem filter_insertDesc (p : Job → Bool) (c : Job) (l : List Job) (hs : l.Pairwise Desc) :
+    (insertDesc c l).filter p = if p c then insertDesc c (l.filter p) else l.filter p := by
+  induction l with
+  | nil => by_cases hc : p c <;> simp [insertDesc, List.filter, hc]
+  | cons d ds ih =>
+    rw [List.pairwise_cons] at hs
+    simp only [insertDesc]
+    by_cases hlt : c.score < d.score
+    · simp only [hlt, if_true]
+      by_cases hd : p d
+      · simp only [List.filter, hd, ih hs.2]
+        by_cases hc : p c
+        · simp [hc, insertDesc, hlt]
+        · simp [hc]
+      · simp only [List.filter, hd, ih hs.2]
+    · simp only [hlt, if_false]
+      by_cases hc : p c
+      · by_cases hd : p d
+        · simp [List.filter, hc, hd, insertDesc, hlt]
+        · simp only [List.filter, hc, hd, if_true]
+          -- c goes in front of the filtered tail: its head is not above d, hence not above c
+          cases hf : List.filter p ds with
+          | nil => simp [insertDesc]
+          | cons x xs =>
+            have hx : x ∈ ds := (List.mem_filter.mp (by rw [hf]; simp)).1
+            have h1 : x.score ≤ d.score := hs.1 x hx
+            have h2 : ¬ c.score < x.score := by
+              have := Rat.not_lt.mp hlt
+              intro h3; grind
+            simp [insertDesc, h2]
+      · simp [List.filter, hc]
+
+theorem filter_sortDesc (p : Job → Bool) (l : List Job) :
+    (sortDesc l).filter p = sortDesc (l.filter p) := by
+  induction l with
+  | nil => rfl
+  | cons c cs ih =>
+    simp only [sortDesc]
+    rw [filter_insertDesc p c _ (sortDesc_sorted cs), ih]
+    by_cases hc : p c <;> simp [List.filter, hc, sortDesc]
+
+/-- the winner loop sees only the results at or above the threshold, sorted -/
+theorem greedy_sorted_above (minW : Rat) (l : List Job) (f : List Nat) :
+    greedy minW (sortDesc l) f = greedy minW (sortDesc (l.filter (above minW))) f := by
+  rw [greedy_takeWhile, takeWhile_eq_filter_of_sorted minW _ (sortDesc_sorted l), filter_sortDesc]
+
 /-! ### the result of `calculateWinners` -/
 
 /-- the paired part of the result: certain matches (arrival order), then the greedy winners -/
@@ -331,17 +413,30 @@ theorem winners_cases {L R : List Person} {minW : Rat} {arr : List Job} {r : Res
 /-- without score ties the result does not depend on the order of arrival (up to the order in
     which the certain matches are listed) -/
 theorem winners_perm (L R : List Person) (minW : Rat) {js arr : List Job} (hp : arr.Perm js)
-    (hn : NoScoreTies js) : (winners L R minW arr).Perm (winners L R minW js) := by
+    (hn : NoScoreTies minW js) : (winners L R minW arr).Perm (winners L R minW js) := by
   have hc : (arr.filter (·.certain)).Perm (js.filter (·.certain)) := hp.filter _
   have hu : (arr.filter (!·.certain)).Perm (js.filter (!·.certain)) := hp.filter _
-  have hs : sortDesc (arr.filter (!·.certain)) = sortDesc (js.filter (!·.certain)) :=
-    sortDesc_eq_of_perm hu (((hu.map _).nodup_iff).mpr hn)
+  have hel : ∀ l : List Job, (l.filter (!·.certain)).filter (above minW) = l.filter (eligible minW) := by
+    intro l
+    rw [List.filter_filter]
+    apply List.filter_congr
+    intro j _
+    simp [eligible, above, Bool.and_comm]
+  have hua : ((arr.filter (!·.certain)).filter (above minW)).Perm ((js.filter (!·.certain)).filter (above minW)) :=
+    hu.filter _
+  have hs : sortDesc ((arr.filter (!·.certain)).filter (above minW)) =
+      sortDesc ((js.filter (!·.certain)).filter (above minW)) := by
+    apply sortDesc_eq_of_perm hua
+    apply ((hua.map _).nodup_iff).mpr
+    rw [hel js]
+    exact hn
   have hf : ∀ x, x ∈ foundOf (arr.filter (·.certain)) ↔ x ∈ foundOf (js.filter (·.certain)) := by
     intro x
     rw [mem_foundOf, mem_foundOf, (hc.map _).mem_iff, (hc.map _).mem_iff]
   have hg : greedy minW (sortDesc (arr.filter (!·.certain))) (foundOf (arr.filter (·.certain))) =
       greedy minW (sortDesc (js.filter (!·.certain))) (foundOf (js.filter (·.certain))) := by
-    rw [hs]; exact greedy_congr minW _ hf
+    rw [greedy_sorted_above, greedy_sorted_above minW (js.filter (!·.certain)), hs]
+    exact greedy_congr minW _ hf
   have hP : (pairsOf minW arr).Perm (pairsOf minW js) := by
     unfold pairsOf; rw [hg]; exact List.Perm.append_right _ hc
   have hfound : ∀ x, x ∈ foundOf (pairsOf minW arr) ↔ x ∈ foundOf (pairsOf minW js) := by
